@@ -44,6 +44,8 @@ SUITES = {
         "mc_lazy": ("mc", dict(MaxIdx=2, S=1, MaxH=3, MaxOps=4, MaxC=2, MaxGen=2, fams=["alloc", "defer", "lazy", "exec"])),
         "rand_mixed": ("rand", dict(n=60, n_ops=120, S=[1, 2, 3], profile="mixed", sweep="full")),
         "rand_churn": ("rand", dict(n=16, n_ops=1200, S=[0, 1], profile="churn", sweep="light", max_live=12)),
+        # generations in the hundreds on one index, batches of hundreds of entities
+        "gen_churn": ("genchurn", dict(n=12)),
     },
     "thorough": {
         "mc_alloc": ("mc", dict(MaxIdx=3, S=0, MaxH=6, MaxOps=8, MaxC=0, MaxGen=3, fams=["alloc", "defer", "batch"])),
@@ -52,16 +54,17 @@ SUITES = {
         "mc_lazy": ("mc", dict(MaxIdx=2, S=1, MaxH=3, MaxOps=5, MaxC=2, MaxGen=2, fams=["alloc", "defer", "lazy", "exec"])),
         "rand_mixed": ("rand", dict(n=600, n_ops=200, S=[1, 2, 3], profile="mixed", sweep="full")),
         "rand_churn": ("rand", dict(n=64, n_ops=4000, S=[0, 1], profile="churn", sweep="light", max_live=16)),
+        "gen_churn": ("genchurn", dict(n=90)),
     },
 }
 
 # which suites decide which property
 PROP_SUITES = {
-    "C01": ["mc_alloc", "mc_store2", "rand_mixed", "rand_churn"],
-    "C02": ["mc_alloc", "mc_store2", "rand_mixed", "rand_churn"],
-    "C17": ["mc_alloc", "rand_mixed", "rand_churn"],
-    "C05": ["mc_store", "mc_store2", "mc_lazy", "rand_mixed"],
-    "C03": ["mc_store", "mc_store2", "rand_mixed"],
+    "C01": ["mc_alloc", "mc_store2", "rand_mixed", "rand_churn", "gen_churn"],
+    "C02": ["mc_alloc", "mc_store2", "rand_mixed", "rand_churn", "gen_churn"],
+    "C17": ["mc_alloc", "rand_mixed", "rand_churn", "gen_churn"],
+    "C05": ["mc_store", "mc_store2", "mc_lazy", "rand_mixed", "gen_churn"],
+    "C03": ["mc_store", "mc_store2", "rand_mixed", "gen_churn"],
     "C09": ["mc_lazy", "rand_mixed"],
 }
 
@@ -139,7 +142,7 @@ def run_suite(name, tier, seed):
     os.makedirs(workdir, exist_ok=True)
     res = {"suite": name, "kind": kind, "params": params, "cache_hit": False}
     tid0 = {"mc_alloc": 1000000, "mc_store": 2000000, "mc_store2": 3000000, "mc_lazy": 4000000,
-            "rand_mixed": 5000000, "rand_churn": 6000000}.get(name, 9000000)
+            "rand_mixed": 5000000, "rand_churn": 6000000, "gen_churn": 7000000}.get(name, 9000000)
     if kind == "mc":
         p = dict(params)
         variants = p.pop("variants", 1)
@@ -147,6 +150,8 @@ def run_suite(name, tier, seed):
         res["mc"] = st
         scripts = G.from_tlc(tlc_scripts, p["S"], tid0, variants=variants)
         res["tlc_scripts"] = len(tlc_scripts)
+    elif kind == "genchurn":
+        scripts = G.gen_churn_scripts(seed, params["n"], tid0)
     else:
         scripts = G.random_scripts(seed, params["n"], params["n_ops"], params["S"], tid0,
                                    profile=params["profile"], sweep=params["sweep"],
